@@ -101,8 +101,8 @@ class LenPrefixed(FileBasedPacketSerializer[bytes, bytes]):
        variant b"seek1": ValueError is raised after file.seek(1) (an error position far behind what was read: with a small
                          receive buffer the remainder does not fit and BufferedStreamDataConsumer raises ValueError)"""
 
-    def __init__(self, limit, variant=b"eager"):
-        super().__init__(expected_load_error=(ValueError,), limit=limit)
+    def __init__(self, limit, variant=b"eager", debug=False):
+        super().__init__(expected_load_error=(ValueError,), limit=limit, debug=debug)
         self.variant = variant
         self.log = None        # when a list: (content, answer) of every load_from_file call
 
@@ -154,13 +154,13 @@ class Point(NamedTuple):
     x: int
 
 
-def make_inner(name):
+def make_inner(name, debug=False):
     if name == b"json":
         from easynetwork.serializers.json import JSONSerializer
-        return JSONSerializer()
+        return JSONSerializer(debug=debug)
     if name == b"pickle":
         from easynetwork.serializers.pickle import PickleSerializer
-        return PickleSerializer(unpickler_cls=RestrictedUnpickler)
+        return PickleSerializer(unpickler_cls=RestrictedUnpickler, debug=debug)
     if name == b"bytes":
         return BytesPassThrough()
     raise ValueError(name)
@@ -170,38 +170,44 @@ INNER_FAM = {b"json": 1, b"pickle": 5, b"bytes": 9}
 
 
 def make_serializer(family, cfg, impl):
+    """impl may end with b"debug": the serializer (and the one it wraps) is built with debug=True, so that the
+    error_info construction of every error path runs"""
+    impl = list(impl)
+    debug = bool(impl) and impl[-1] == b"debug"
+    if debug:
+        impl = impl[:-1]
     name = impl[0]
     if family == 0:
         from easynetwork.serializers.line import StringLineSerializer
         sep, limit, keep_end = cfg[0], cfg[1], bool(cfg[2])
-        return StringLineSerializer(NEWLINES[sep], encoding=impl[1].decode(), limit=limit, keep_end=keep_end)
+        return StringLineSerializer(NEWLINES[sep], encoding=impl[1].decode(), limit=limit, keep_end=keep_end, debug=debug)
     if family in (1, 2):
         from easynetwork.serializers.json import JSONSerializer
-        return JSONSerializer(limit=cfg[0], use_lines=(family == 1))
+        return JSONSerializer(limit=cfg[0], use_lines=(family == 1), debug=debug)
     if family == 3:
         from easynetwork.serializers.struct import NamedTupleStructSerializer, StructSerializer
         if name == b"struct":
-            s = StructSerializer(impl[1].decode())
+            s = StructSerializer(impl[1].decode(), debug=debug)
         else:
-            s = NamedTupleStructSerializer(Point, {"name": impl[1].decode(), "x": "B"}, encoding="utf-8")
+            s = NamedTupleStructSerializer(Point, {"name": impl[1].decode(), "x": "B"}, encoding="utf-8", debug=debug)
         assert s.packet_size == cfg[0], (s.packet_size, cfg)
         return s
     if family == 4:
         from easynetwork.serializers.wrapper.base64 import Base64EncoderSerializer
         sep, limit = cfg[0], cfg[1]
         assert INNER_FAM[impl[3]] == cfg[2]
-        return Base64EncoderSerializer(make_inner(impl[3]), alphabet=impl[1].decode(), checksum=bool(impl[2]),
-                                       separator=sep, limit=limit)
+        return Base64EncoderSerializer(make_inner(impl[3], debug), alphabet=impl[1].decode(), checksum=bool(impl[2]),
+                                       separator=sep, limit=limit, debug=debug)
     if family == 5:
-        return make_inner(b"pickle")
+        return make_inner(b"pickle", debug)
     if family == 6:
         from easynetwork.serializers.wrapper.compressor import BZ2CompressorSerializer, ZlibCompressorSerializer
         assert (name == b"zlib") == (cfg[0] == 0) and INNER_FAM[impl[1]] == cfg[1]
         cls = ZlibCompressorSerializer if name == b"zlib" else BZ2CompressorSerializer
-        return cls(make_inner(impl[1]))
+        return cls(make_inner(impl[1], debug), debug=debug)
     if family == 7:
         assert list(cfg[1]) == FB_EXPECTED
-        return LenPrefixed(cfg[0], impl[1])
+        return LenPrefixed(cfg[0], impl[1], debug=debug)
     raise ValueError(f"unknown family {family}")
 
 
@@ -500,7 +506,8 @@ def _recording_compressor(cfg, impl, log):
         def new_decompressor_stream(self):
             return _RecDecompressor(super().new_decompressor_stream(), log)
 
-    return Rec(make_inner(impl[1]))
+    dbg = bool(impl) and impl[-1] == b"debug"
+    return Rec(make_inner(impl[1], dbg), debug=dbg)
 
 
 def _merge(rows_list):
